@@ -701,9 +701,31 @@ pub fn c11(tier: &str) -> ! {
         run_sched(&mut rep, "crash-at-every-removal/p1d3", &c11_removal_programs(), (1, 3), 4, false, 1, Duration::from_secs(20), own);
         run_sched(&mut rep, "failing-reader-vs-version-install/p1d3", &c11_fault_programs(), (1, 3), 4, false, 1, Duration::from_secs(15), own);
     }
+    // leftovers of a crash (orphan tables, half-written temp files, superseded manifests, old
+    // WALs) are reclaimed: every crash image of the covering histories is recovered, given one
+    // reclamation opportunity, and the directories must hold exactly the needed files
+    {
+        use crate::crashx::{CrashMode, CrashSpec};
+        use crate::props_crash::{covering_histories, generated_histories, run_crash, shrink_history};
+        let spec = CrashSpec {
+            mode: CrashMode::Prefixes,
+            nested: false,
+            check_directory: true,
+            prefix: "C11",
+        };
+        let all_cfgs = ["T300", "T300n", "M2", "M2n"];
+        let hs: Vec<_> = covering_histories(&all_cfgs).into_iter().chain(shrink_history()).collect();
+        if t {
+            run_crash(&mut rep, "crash-leftovers/covering", hs, spec.clone(), crate::report::scaled(Duration::from_secs(900)), own);
+            run_crash(&mut rep, "crash-leftovers/generated<=4", generated_histories(&all_cfgs, 4), spec, crate::report::scaled(Duration::from_secs(900)), own);
+        } else {
+            run_crash(&mut rep, "crash-leftovers/covering", hs, spec.clone(), Duration::from_secs(10), own);
+            run_crash(&mut rep, "crash-leftovers/generated<=2", generated_histories(&all_cfgs, 2), spec, Duration::from_secs(10), own);
+        }
+    }
     finish_common(&mut rep);
     sched_assumptions(&mut rep);
-    rep.cov("oracle", json!("sequence part: at every node without live snapshot/iterator, after one reclamation opportunity (flush of the possibly empty memtable, background idle) the three directories hold exactly CURRENT, LOCK, the current manifest, WALs >= the version's WAL number and the tables of the current layout; with a live snapshot/iterator every table of the current layout exists; schedule part: no read of a reader concurrent with compaction + deletion ever touches a removed file (strict unlink); schedule x fault part: a reader whose own table reads fail runs against flushes / compactions installing new versions, and after the fault is disarmed, everything compacted and the background idle the directories again hold exactly the needed files"));
+    rep.cov("oracle", json!("sequence part: at every node without live snapshot/iterator, after one reclamation opportunity (flush of the possibly empty memtable, background idle) the three directories hold exactly CURRENT, LOCK, the current manifest, WALs >= the version's WAL number and the tables of the current layout; with a live snapshot/iterator every table of the current layout exists; schedule part: no read of a reader concurrent with compaction + deletion ever touches a removed file (strict unlink); schedule x fault part: a reader whose own table reads fail runs against flushes / compactions installing new versions, and after the fault is disarmed, everything compacted and the background idle the directories again hold exactly the needed files; crash part: every crash image (prefix of the filesystem-operation log) of the covering and generated histories is recovered, and after one reclamation opportunity the directories hold exactly the needed files — what the crash left behind is reclaimed"));
     rep.finish()
 }
 
